@@ -148,7 +148,7 @@ func init() {
 				}
 			},
 			Rule: "package-level defaults (SupportNegativeIndices on/off set through the package variable) through Apply and ApplyIndent on two array documents, depth 2: reference result, and ApplyIndent succeeds exactly when Apply does"}
-		return []*seqProp{p, mini, defs}
+		return []*seqProp{p, mini, defs, scalePhase(p)}
 	}, 150*time.Second, 25*time.Minute)
 }
 
@@ -217,6 +217,12 @@ func init() {
 		lits := parseAll([]string{`{"n":1.0,"e":1e400,"z":-0,"big":12345678901234567890123}`, `{"b":2,"a":1,"c":{"z":1.50,"y":2}}`, `{"c":{"y":null,"x":1.0},"d":0.10,"a":1E2}`, `{"z":{"n":-0.0}}`})
 		docs := append(onlyObjs(v2), lits...)
 		runMergeEdges(ctx, "C05", false, docs, append(append([]*rj.Value(nil), v2...), lits...), mergeCfg{ordered: true})
+		w40 := rj.MustParse(wide40())
+		many := rj.NewObj()
+		for i := 0; i < 20; i++ {
+			many.O = append(many.O, rj.Member{Name: fmt.Sprintf("new%02d", i), V: rj.MustParse(`1.50`)})
+		}
+		runMergeEdges(ctx, "C05", false, []*rj.Value{w40, rj.NewObj(rj.Member{Name: "in", V: w40})}, []*rj.Value{many, rj.NewObj(rj.Member{Name: "in", V: many}), rj.MustParse(`{"k01":{"x":null},"k11":{"y":2},"k21":{"z":3}}`)}, mergeCfg{ordered: true})
 	}, func(tier string) []*seqProp {
 		p := &seqProp{ID: "C05", Docs: Dq, Opts: []r69.Options{defaultOpt}, Depth: 2,
 			Judge: func(r *seqRun) { judgeResult(r, true) },
@@ -225,7 +231,7 @@ func init() {
 		if tier == "thorough" {
 			return []*seqProp{p, deepPhase(p, &AlphaCfg{}, append(append([]string(nil), DqCore...), Dq[4]))}
 		}
-		return []*seqProp{p, miniDeep(p, `{"b":{"y":1.0,"x":null},"a":[1e400]}`)}
+		return []*seqProp{p, miniDeep(p, `{"b":{"y":1.0,"x":null},"a":[1e400]}`), scalePhase(p)}
 	}, 150*time.Second, 25*time.Minute)
 
 	// C08 — failures return nothing and say why
@@ -293,7 +299,27 @@ func init() {
 		if tier == "thorough" {
 			p.Alpha = []*AlphaCfg{first, {}}
 		}
-		return []*seqProp{p, rev}
+		// indices beyond the usual small ones: padding to 255 / 256 / 300, below and beyond a 260-element array
+		bigIdx := func(d *rj.Value) []r69.Op {
+			var ops []r69.Op
+			for _, pth := range []string{"/n/255", "/n/256", "/n/300", "/n/b/256", "/a/259/x", "/a/260/x", "/a/262/x", "/a/-", "/a/256", "/a/300", "/a/255/i2"} {
+				ops = append(ops, r69.Op{Kind: "add", Path: pth, Value: patchValues[0], HasValue: true})
+			}
+			return ops
+		}
+		small := func(d *rj.Value) []r69.Op {
+			return []r69.Op{{Kind: "test", Path: "/n/256", Value: patchValues[0], HasValue: true}, {Kind: "test", Path: "/n/300", Value: patchValues[0], HasValue: true},
+				{Kind: "test", Path: "/a/262/x", Value: patchValues[0], HasValue: true}, {Kind: "test", Path: "/n/44", Value: rj.NewNull(), HasValue: true},
+				{Kind: "remove", Path: "/a/0"}, {Kind: "add", Path: "/n/b/300", Value: patchValues[0], HasValue: true}, {Kind: "test", Path: "/a/6", Value: rj.MustParse(`{"i":6}`), HasValue: true}}
+		}
+		big := &seqProp{ID: "C14", Docs: []string{`{}`, scaleDocs[2]}, Opts: opts[:1], Depth: 2, Alpha: []*AlphaCfg{{Custom: bigIdx}, {Custom: small}}, Judge: judgeC14,
+			Rule: "option on, SCALE: add paths whose indices lie around 255|256|300 on an empty document and on a 260-element array, followed by probes of the padded positions; same oracle"}
+		// three steps: an ensure-add ; a copy over (part of) the path just created ; another ensure-add under the same parent
+		m1 := &AlphaCfg{EnsureLen: 2, Values: []*rj.Value{patchValues[0]}}
+		mini := &seqProp{ID: "C14", Docs: []string{`{"tpl":{"keep":true},"z":{},"a":[]}`}, Opts: opts[:1], Depth: 3,
+			Alpha: []*AlphaCfg{m1, {Kinds: kinds("copy", "test"), MaxFroms: 4, Values: v1n}, m1}, Judge: judgeC14,
+			Rule: "option on, DEPTH 3: add path of <= 2 tokens ; copy or test ; add path of <= 2 tokens (the second add must not rely on anything remembered from the first)"}
+		return []*seqProp{p, rev, big, mini}
 	}, 150*time.Second, 25*time.Minute)
 
 	// C15 — well-formed outputs, escaping, indentation (Apply part)
@@ -356,7 +382,7 @@ func init() {
 				}
 			},
 			Rule: "package-level defaults (SupportNegativeIndices on/off set through the package variable) through Apply and ApplyIndent on two array documents, depth 2: reference result, and ApplyIndent succeeds exactly when Apply does"}
-		return []*seqProp{p, mini, defs}
+		return []*seqProp{p, mini, defs, scalePhase(p)}
 	}, 150*time.Second, 25*time.Minute)
 }
 
@@ -414,7 +440,31 @@ func init() {
 		viaRoot := &seqProp{ID: "C12", Docs: docs, Opts: []r69.Options{{Neg: true, EscapeHTML: true}}, Depth: 3,
 			Alpha: []*AlphaCfg{tail, {Values: rootVals, ReplValues: rootVals, Kinds: kinds("add", "replace"), RootOnly: true}, {Kinds: kinds("copy", "add"), Values: vals[:1]}}, Judge: judgeC12,
 			Rule: "v5 per-call option, DEPTH 3 of the shape copy ; add/replace of the whole document ; copy-or-add: the running total carries over a root replacement (limits around every total as in the first phase)"}
-		return append([]*seqProp{perCall, defaults, legacy, viaRoot}, extra...)
+		// compounding copies: the same whole-document copy up to 8 times (the total doubles each time)
+		selfCopy := func(d *rj.Value) []r69.Op {
+			return []r69.Op{{Kind: "copy", From: "", Path: "/-"}, {Kind: "copy", From: "/0", Path: "/-"}}
+		}
+		chain := &seqProp{ID: "C12", Docs: []string{`["xxxxxxxxxxxxxxxx"]`}, Opts: []r69.Options{{Neg: true, EscapeHTML: true}}, Depth: 8,
+			Alpha: []*AlphaCfg{{Custom: selfCopy}}, Judge: judgeC12,
+			Rule: "v5 per-call option, DEPTH 8 chains of whole-document / first-element copies on a one-element array (totals compound: 20, 60, 140, ... bytes); limits around every running total"}
+		// a source larger than 4 KiB spelled with insignificant whitespace, raw and after an operation has parsed it
+		var pretty strings.Builder
+		pretty.WriteString("{\"big\": [\n")
+		for i := 0; i < 420; i++ {
+			if i > 0 {
+				pretty.WriteString(" ,\n")
+			}
+			fmt.Fprintf(&pretty, "    \"s%03d<\"", i)
+		}
+		pretty.WriteString("\n  ] ,\n \"k\" : 1 }")
+		bigSrc := func(d *rj.Value) []r69.Op {
+			return []r69.Op{{Kind: "copy", From: "/big", Path: "/c"}, {Kind: "test", Path: "/big/0", Value: rj.MustParse(`"s000<"`), HasValue: true},
+				{Kind: "copy", From: "/big", Path: "/big/-"}, {Kind: "copy", From: "/k", Path: "/k2"}}
+		}
+		large := &seqProp{ID: "C12", Docs: []string{pretty.String()}, Opts: []r69.Options{{Neg: true, EscapeHTML: true}, {Neg: true, EscapeHTML: false}}, Depth: 3,
+			Alpha: []*AlphaCfg{{Custom: bigSrc}}, Judge: judgeC12,
+			Rule: "v5 per-call option, SCALE: an 8 KB pretty-printed array copied raw and after a test has parsed it, sequences <= 3, limits around every total (the duplicate is compact: 2.5 / 4.6 KB)"}
+		return append([]*seqProp{perCall, defaults, legacy, viaRoot, chain, large}, extra...)
 	}, 150*time.Second, 25*time.Minute)
 }
 
@@ -446,6 +496,21 @@ func init() {
 		runMergeEdges(ctx, "C02", false, echoDocs, echoDocs, mergeCfg{})
 		look := pointerLookalikeObjects()
 		runMergeEdges(ctx, "C02", false, append(look, rj.MustParse(`{"a":{"a/b":1,"a~1b":2}}`)), look, mergeCfg{})
+		// SCALE: a 40-member document (nulls, nested objects, big literals) x patches with 16 / 17 / 40 members
+		w40 := rj.MustParse(wide40())
+		manyMembers := func(n int, val string) *rj.Value {
+			o := rj.NewObj()
+			for i := 0; i < n; i++ {
+				o.O = append(o.O, rj.Member{Name: fmt.Sprintf("new%02d", i), V: rj.MustParse(val)})
+			}
+			return o
+		}
+		scalePatches := []*rj.Value{manyMembers(16, `1`), manyMembers(17, `1`), manyMembers(40, `{"q":null,"r":1}`), w40,
+			rj.NewObj(rj.Member{Name: "k01", V: manyMembers(17, `null`)}), rj.NewObj(rj.Member{Name: "in", V: manyMembers(33, `{"z":null}`)})}
+		runMergeEdges(ctx, "C02", false, []*rj.Value{w40, rj.NewObj(rj.Member{Name: "in", V: w40}), rj.MustParse(`{"k01":{"x":1,"n":null}}`)}, scalePatches, mergeCfg{})
+		// the shortest objects that hold a null member, and names with DEL / control characters
+		tiny := parseAll([]string{`{"":null}`, `{"a":{"":null}}`, `{"a":{"":null,"b":1}}`, `{"":{"":null}}`, "{\"a\u007fb\":1,\"c\":{\"\u007f\":null}}", "{\"\u007f\":{\"\\u007f\":2}}"})
+		runMergeEdges(ctx, "C02", false, append(tiny, parseAll([]string{`{}`, `{"a":1}`, `{"":{"x":1}}`, `1`})...), tiny, mergeCfg{variants: true})
 		if tier == "quick" {
 			v3 := famV3()
 			runMergeEdges(ctx, "C02", false, v3, v3, mergeCfg{})
